@@ -355,6 +355,15 @@ def _tail_returns_only(body):
     """every return of the statement list is in tail position of an if-tree"""
     for i, s in enumerate(body):
         last = i == len(body) - 1
+        if isinstance(s, ast.Try):
+            has_ret = any(isinstance(x, ast.Return) for x in ast.walk(s))
+            if has_ret:
+                if not last or s.finalbody:
+                    return False
+                for blk in [s.body, s.orelse] + [h.body for h in s.handlers]:
+                    if blk and not _tail_returns_only(blk):
+                        return False
+            continue
         if isinstance(s, ast.Return):
             if not last:
                 return False
@@ -383,6 +392,12 @@ def _replace_returns(body, make):
             s.body = _replace_returns(s.body, make)
             s.orelse = _replace_returns(s.orelse, make)
             out.append(s)
+        elif isinstance(s, ast.Try):
+            s.body = _replace_returns(s.body, make) or [ast.Pass()]
+            s.orelse = _replace_returns(s.orelse, make)
+            for h in s.handlers:
+                h.body = _replace_returns(h.body, make) or [ast.Pass()]
+            out.append(s)
         else:
             out.append(s)
     return out
@@ -396,6 +411,9 @@ def _ends_with_return(body):
         return True
     if isinstance(s, ast.If) and s.orelse:
         return _ends_with_return(s.body) and _ends_with_return(s.orelse)
+    if isinstance(s, ast.Try) and not s.finalbody:
+        return _ends_with_return(s.body + s.orelse) and all(
+            _ends_with_return(h.body) for h in s.handlers)
     return False
 
 
@@ -756,6 +774,9 @@ def _assigns_on_all_paths(body, name):
     if isinstance(s, ast.If) and s.orelse:
         return _assigns_on_all_paths(s.body, name) and \
             _assigns_on_all_paths(s.orelse, name)
+    if isinstance(s, ast.Try) and not s.finalbody:
+        return _assigns_on_all_paths(s.body + s.orelse, name) and all(
+            _assigns_on_all_paths(h.body, name) for h in s.handlers)
     return False
 
 
@@ -764,6 +785,26 @@ _ends_with_return_assign = _assigns_on_all_paths
 
 # ------------------------------------------- step 2: tables, getattr, f-strings
 class _ConstFold(ast.NodeTransformer):
+    def visit_IfExp(self, n):
+        self.generic_visit(n)
+        if isinstance(n.test, ast.Constant):
+            return n.body if n.test.value else n.orelse
+        return n
+
+    def visit_UnaryOp(self, n):
+        self.generic_visit(n)
+        if isinstance(n.op, ast.Not) and isinstance(n.operand, ast.Constant) \
+                and isinstance(n.operand.value, (bool, type(None))):
+            return ast.copy_location(ast.Constant(not n.operand.value), n)
+        return n
+
+    def visit_If(self, n):
+        self.generic_visit(n)
+        if isinstance(n.test, ast.Constant):
+            arm = n.body if n.test.value else n.orelse
+            return arm or ast.Pass()
+        return n
+
     def visit_JoinedStr(self, n):
         self.generic_visit(n)
         parts = []
@@ -1118,16 +1159,24 @@ def _touches(s, roots):
                 given.append(x.func.value)
             given += list(x.args) + [k.value for k in x.keywords]
             for g in given:
-                for y in ast.walk(g):
-                    if isinstance(y, (ast.Name, ast.Attribute,
-                                      ast.Subscript)):
-                        p = _path(y)
-                        if p is None:
-                            continue
-                        for q in roots:
-                            if _prefix(p, q) and (len(p) < len(q) or
-                                                  '[]' in q):
-                                return True
+                # what the callee is handed: the object the expression
+                # denotes (an expression that computes a new value hands
+                # over nothing the caller can still see)
+                tops = [g]
+                if isinstance(g, (ast.Tuple, ast.List)):
+                    tops = list(g.elts)
+                for y in tops:
+                    if isinstance(y, ast.Starred):
+                        y = y.value
+                    if not isinstance(y, (ast.Name, ast.Attribute,
+                                          ast.Subscript)):
+                        continue
+                    p = _path(y)
+                    if p is None:
+                        return True
+                    for q in roots:
+                        if _prefix(p, q):
+                            return True
     return False
 
 
@@ -1297,13 +1346,13 @@ def forward_substitute(fn):
             if holder is None or _loads_of(nm, [ast.Expr(holder)]) != 1:
                 return False
             return first_evaluated(holder, nm)
-        n_use = _loads_of(nm, rest)
-        if n_use == 0:
+        n_use = _path_uses(nm, rest)
+        if _loads_of(nm, rest) == 0:
             return True           # never read on this path: nothing to keep
         if aug_assigned(nm, rest):
             return False
         denotes = isinstance(val, (ast.Name, ast.Constant)) or (
-            _path(val) is not None)
+            _path(val) is not None) or _index_arithmetic(val)
         if not denotes:
             # the expression makes a new object on every evaluation: it may
             # be evaluated several times only where the object is consumed
@@ -1317,14 +1366,7 @@ def forward_substitute(fn):
             # an evaluation that fails for some inputs (a missing index, a
             # text that is not a number) stays on its side of every effect:
             # what is stored before the failure is behaviour
-            last = max(i for i, st in enumerate(rest) if _loads_of(nm, [st]))
-            if any(_is_effect(st) for st in rest[:last]):
-                return False
-            st = rest[last]
-            if isinstance(st, (ast.If, ast.For, ast.With, ast.Try)) and \
-                    _is_effect(st) and _loads_of(
-                        nm, getattr(st, 'body', []) +
-                        getattr(st, 'orelse', [])):
+            if not _uses_before_effects(nm, rest)[0]:
                 return False
         roots = _state_roots(val)
         if roots:
@@ -1540,9 +1582,11 @@ def forward_substitute(fn):
                 out.append(s)
                 continue
             if isinstance(s, ast.Try):
-                keep = _names_stored(ast.Module(
-                    s.body + s.orelse + s.finalbody +
-                    [x for h in s.handlers for x in h.body], []))
+                others = s.orelse + s.finalbody + \
+                    [x for h in s.handlers for x in h.body]
+                keep = _names_stored(ast.Module(others, [])) | {
+                    n_ for n_ in _names_stored(ast.Module(s.body, []))
+                    if _loads_of(n_, others + rest)}
                 for nm in sorted(keep):
                     if nm in env:
                         out.append(ast.Assign([ast.Name(nm, ast.Store())],
@@ -1615,6 +1659,199 @@ def _loads_of(name, stmts):
     return sum(1 for s in stmts for x in ast.walk(s)
                if isinstance(x, ast.Name) and isinstance(x.ctx, ast.Load)
                and x.id == name)
+
+
+def _path_uses(name, stmts):
+    """largest number of evaluations of the name on one path through the
+    statements (a loop body counts as many)"""
+    n = 0
+    for s in stmts:
+        if isinstance(s, ast.If):
+            n += _loads_of(name, [ast.Expr(s.test)]) + max(
+                _path_uses(name, s.body), _path_uses(name, s.orelse))
+        elif isinstance(s, ast.For):
+            n += _loads_of(name, [ast.Expr(s.iter)])
+            if _loads_of(name, s.body):
+                n += 99
+        elif isinstance(s, ast.Try):
+            n += _loads_of(name, [s])
+        elif isinstance(s, ast.With):
+            n += sum(_loads_of(name, [ast.Expr(i.context_expr)])
+                     for i in s.items) + _path_uses(name, s.body)
+        else:
+            n += _loads_of(name, [s])
+    return n
+
+
+def _uses_before_effects(name, stmts):
+    """on every path every evaluation of the name happens before the first
+    statement with an effect has been executed (the statement that performs
+    the effect may itself evaluate the name: operands come first).
+    Returns (ok, an effect has happened on some path)"""
+    done = False
+    for s in stmts:
+        if isinstance(s, ast.If):
+            if done and _loads_of(name, [s]):
+                return False, True
+            if _is_effect(ast.Expr(s.test)):
+                if _loads_of(name, s.body + s.orelse):
+                    return False, True
+                done = True
+                continue
+            a, da = _uses_before_effects(name, s.body)
+            b, db = _uses_before_effects(name, s.orelse)
+            if not (a and b):
+                return False, True
+            done = done or da or db
+        elif isinstance(s, (ast.For, ast.Try, ast.With)):
+            if _loads_of(name, [s]) and (done or _is_effect(s)):
+                # the header of a loop may read it when nothing happened yet
+                hdr = s.iter if isinstance(s, ast.For) else None
+                inside = _loads_of(name, [s]) - (
+                    _loads_of(name, [ast.Expr(hdr)]) if hdr is not None
+                    else 0)
+                if done or inside:
+                    return False, True
+            done = done or _is_effect(s)
+        else:
+            if done and _loads_of(name, [s]):
+                return False, True
+            done = done or _is_effect(s)
+    return True, done
+
+
+def _index_arithmetic(e):
+    """k + 1, n - 2, 2 * k with integer literals: an integer (immutable)"""
+    if isinstance(e, ast.BinOp) and isinstance(
+            e.op, (ast.Add, ast.Sub, ast.Mult, ast.FloorDiv)):
+        sides = (e.left, e.right)
+        if any(isinstance(x, ast.Constant) and isinstance(x.value, int) and
+               not isinstance(x.value, bool) for x in sides) and all(
+                isinstance(x, ast.Constant) or _path(x) is not None or
+                _index_arithmetic(x) for x in sides):
+            return True
+    return False
+
+
+def unique_loop_vars(fn):
+    """loop and comprehension variables that nothing reads outside their
+    loop get a name of their own (the same spelling used by several loops
+    is not a connection between them)"""
+    k = [0]
+
+    def ren(node, names):
+        m = {}
+        for nm in names:
+            k[0] += 1
+            m[nm] = f'lv{k[0]}_'
+
+        class R(ast.NodeTransformer):
+            def visit_Name(self, n):
+                if n.id in m:
+                    n.id = m[n.id]
+                return n
+        R().visit(node)
+
+    def comp(n):
+        names = set()
+        for g in n.generators:
+            names |= _names_stored(g.target)
+        # the first iterable belongs to the enclosing scope
+        first = n.generators[0].iter
+        n.generators[0].iter = ast.Constant(None)
+        ren(n, names)
+        n.generators[0].iter = first
+    for x in ast.walk(fn):
+        if isinstance(x, (ast.ListComp, ast.SetComp, ast.DictComp,
+                          ast.GeneratorExp)):
+            comp(x)
+    for owner, fld, body in list(_all_blocks(fn)):
+        for i, s in enumerate(body):
+            if isinstance(s, ast.For):
+                names = _names_stored(s.target)
+                outside = 0
+                for nm in list(names):
+                    total = sum(1 for z in ast.walk(fn) if isinstance(
+                        z, ast.Name) and z.id == nm)
+                    inside = sum(1 for z in ast.walk(s) if isinstance(
+                        z, ast.Name) and z.id == nm)
+                    if total != inside:
+                        names.discard(nm)
+                if names:
+                    it = s.iter
+                    s.iter = ast.Constant(None)
+                    ren(s, names)
+                    s.iter = it
+    return fn
+
+
+def coalesce_copies(fn):
+    """`x = y` (both plain names) where y is not read afterwards: x is y"""
+    changed = True
+    guard = 0
+    while changed and guard < 50:
+        changed = False
+        guard += 1
+        for owner, fld, body in _all_blocks(fn):
+            for i, s in enumerate(body):
+                if isinstance(s, ast.Assign) and len(s.targets) == 1 and \
+                        isinstance(s.targets[0], ast.Name) and \
+                        isinstance(s.value, ast.Name):
+                    x, y = s.targets[0].id, s.value.id
+                    if x == y:
+                        del body[i]
+                        changed = True
+                        break
+                    rest = body[i + 1:]
+                    # y dead after the copy (in this block and, because
+                    # tails are sunk, on the whole path); x bound only here
+                    if _loads_of(y, rest) or y in _names_stored(
+                            ast.Module(rest, [])):
+                        continue
+                    nx = sum(1 for z in ast.walk(fn) if isinstance(
+                        z, ast.Name) and z.id == x and isinstance(
+                        z.ctx, ast.Store))
+                    if nx != 1 and not _only_rebound_in(x, rest, fn):
+                        continue
+                    if _inside_loop(fn, s):
+                        continue
+                    for st in rest:
+                        for z in ast.walk(st):
+                            if isinstance(z, ast.Name) and z.id == x:
+                                z.id = y
+                    del body[i]
+                    changed = True
+                    break
+            if changed:
+                break
+    return fn
+
+
+def _only_rebound_in(x, rest, fn):
+    total = sum(1 for z in ast.walk(fn) if isinstance(z, ast.Name) and
+                z.id == x and isinstance(z.ctx, ast.Store))
+    inrest = sum(1 for st in rest for z in ast.walk(st)
+                 if isinstance(z, ast.Name) and z.id == x and
+                 isinstance(z.ctx, ast.Store))
+    return total == inrest + 1
+
+
+def _inside_loop(fn, stmt):
+    for x in ast.walk(fn):
+        if isinstance(x, ast.For) and any(y is stmt for y in ast.walk(x)):
+            return True
+    return False
+
+
+def _all_blocks(node):
+    for fld in ('body', 'orelse', 'finalbody'):
+        b = getattr(node, fld, None)
+        if isinstance(b, list) and b and isinstance(b[0], ast.stmt):
+            yield node, fld, b
+            for st in list(b):
+                yield from _all_blocks(st)
+    for h in getattr(node, 'handlers', []) or []:
+        yield from _all_blocks(h)
 
 
 # --------------------------------------------------------- step 5: local names
@@ -1690,12 +1927,29 @@ def normal_form2(fn, scope):
         _check_supported(g)
         inline_helpers(g, scope)
         _check_supported(g)
-        canon.expand_ifexp(g)
-        unroll_tables(g, scope)
-        append_loops(g)
-        sink_tails(g)
-        forward_substitute(g)
-        _ConstFold().visit(g)
+        unique_loop_vars(g)
+        prev = None
+        for _round in range(4):
+            canon.expand_ifexp(g)
+            unroll_tables(g, scope)
+            append_loops(g)
+            sink_tails(g)
+            forward_substitute(g)
+            _ConstFold().visit(g)
+            for x in ast.walk(g):
+                for fld in ('body', 'orelse', 'finalbody'):
+                    b = getattr(x, fld, None)
+                    if isinstance(b, list) and any(
+                            isinstance(y, list) for y in b):
+                        flat = []
+                        for y in b:
+                            flat += y if isinstance(y, list) else [y]
+                        setattr(x, fld, flat)
+            cur = ast.dump(g)
+            if cur == prev:
+                break
+            prev = cur
+        coalesce_copies(g)
         g = canon._NormalIf().visit(g)
         rename_locals(g)
         g = canon._Normal().visit(g)
